@@ -38,6 +38,7 @@ def one_pair(task):
     name, seed, ndim, size, offset_kind, n_iter, cfg = task
     cfg = dict(cfg)
     scale = cfg.pop("__scale", 1.0)       # the objective handed to the optimizer is scale * f: direction must not depend on the unit of the score
+    chunk = cfg.pop("__chunk", None)      # the run is cut into search() calls of `chunk` steps on the same object (a continued search)
     import gradient_free_optimizers as gfo
     opt_pt, off = landscape(seed, ndim, size, offset_kind)
     space = {"x%d" % i: np.arange(size) for i in range(ndim)}
@@ -52,7 +53,13 @@ def one_pair(task):
         try:
             o = getattr(gfo, name)(space, random_state=seed, **cfg)
             with contextlib.redirect_stdout(io.StringIO()), contextlib.redirect_stderr(io.StringIO()):
-                o.search(obj, n_iter=n_iter, verbosity=False, memory=False)
+                if chunk is None:
+                    o.search(obj, n_iter=n_iter, verbosity=False, memory=False)
+                else:
+                    left = n_iter
+                    while left > 0:
+                        o.search(obj, n_iter=min(chunk, left), verbosity=False, memory=False)
+                        left -= min(chunk, left)
         except Exception as e:
             return dict(task=task, error="%s: %s" % (type(e).__name__, str(e)[:80]))
         pos = [tuple(int(x) for x in p) for p in o.pos_l]
